@@ -142,6 +142,16 @@ def hsVerdict (aesni : Bool) (cfgs : List Cfg) (sni : Bytes) (localAddr : Option
         else if mapKey c.hostname != [] && san != c.hostname then "bad:wrong-certificate:the certificate presented is not the governing site's"
         else "ok"
 
+/-- any tls.Config that `buildStandardTLSConfig` produces, defaulted or not: TLS_FALLBACK_SCSV comes
+first and `acme-tls/1` is offered -/
+def buildVerdict (o : Option (Cfg × Built)) : String :=
+  match o with
+  | none => "ok"
+  | some (_, b) =>
+    if b.ciphers.head? != some scsv then "bad:scsv-not-first:TLS_FALLBACK_SCSV is not the first cipher suite"
+    else if !b.nextProtos.contains acmeALPN then "bad:no-acme-alpn:acme-tls/1 is not offered"
+    else "ok"
+
 /-- the strict-SNI clause, on what a request over a connection got: a site that demands client
 certificates (and keeps the check on) serves only requests whose TLS server name equals the
 Host name (port stripped, letter case ignored) -/
